@@ -15,9 +15,9 @@ CLAIMS = {
  "C02": ("Theorems over any linearly ordered floor-field with explicit NaN/±inf: per-opcode enclosure (op_enclosure) for all 25 value opcodes given Boost's primitive contracts, lifted to whole tapes by induction (tape_enclosure, state_sound); for opcodes whose flag logic is incomplete the missing hypothesis is spelled out (SafeArgs) and the negation is proved with a concrete witness. Tie: exhaustive landmark-endpoint grid (~4.7e5 cases) through the real IntervalEvaluator vs the model's flag/case logic, exactly; oracle: ~2e7 sampled points per run inside the operand intervals through the real ArrayEvaluator.",
          "Boost.Interval's outward rounding and transcendental enclosures are assumed as hypotheses (BoostSound); Eigen kernel ulp slack is empirical.",
          "Lean 4 proof (flag completeness per opcode + tape induction) + exhaustive order-type correspondence"),
- "C03": ("Theorems: complete-table lemmas by kernel `decide` over tables regenerated from the mesher sources and the running library (tet_face_local, tets_per_cell_orientation, marching_table_partition, tet_tables_equal), the lifting theorem marching_closed (any oriented tet complex satisfying the face-matching hypothesis (H) yields a closed consistently oriented triangle set), dc_quad_boundary, marching_no_repeated_vertex; last_arriver (pool protocol) comes from C11. Tie: every tet / quad the real meshers march is dumped through hooks; the model re-marches them and must reproduce the real triangles; (H) is checked on the dumped complex. Oracle: directed-edge pairing, repeated vertices, index validity on the real meshes.",
-         "Hypothesis (H) for the real octree and the edge-manifold clause are validated per run, not proved; interleavings are sampled (workers 1..16).",
-         "Lean 4 proof (table lemmas by decide + double-counting lifting theorem) over tables regenerated from source + tet/quad trace replay"),
+ "C03": ('Proved: complete-table lemmas by kernel decide over tables regenerated from the mesher sources and the running library, the lifting theorems marching_closed (closed, consistently oriented) and marching_manifold (each directed side at most once) for ANY oriented tet complex satisfying the face-matching hypothesis (H) with distinct vertices / tet vertex sets, dc_quad_boundary, marching_no_repeated_vertex, collect_children_once. Tie: every tet / quad the real meshers march is dumped through hooks; the model re-marches them and must reproduce the real triangles; (H) and the side hypotheses are checked on the dumped complex. Oracle: directed-edge pairing, repeated vertices, index validity on the real meshes.',
+         'Hypothesis (H) for the real (adaptive) octree is validated per run, not proved; interleavings are sampled (workers 1..16).',
+         'Lean 4 proof (table lemmas by decide + double-counting lifting theorems) over tables regenerated from source + tet/quad trace replay'),
  "C04": ("Theorems: tet_triangle_outward (decide over all masks), search_bracket / search_finds_zero (edge search brackets a zero to L/50625 by the intermediate value theorem, constants regenerated from source), vertex_in_region (convexity), winding_partial (combinatorial part). Oracle on real meshes: winding number by solid angle at points with |f| > k*min_feature, vertices inside the region and within k' * min_feature of the level set, all three algorithms, with and without VolTree.",
          "The geometric winding-number and distance clauses are oracle-only (float geometry); DC vertex placement is not derived.",
          "Lean 4 proof (IVT bracket, table orientation lemma) + geometric oracle on rendered meshes"),
@@ -36,18 +36,18 @@ CLAIMS = {
  "C09": ("Theorems: split_partitions, split_enumerates, voxels_cover_partial, recurse_eq_bruteforce, render_eq_bruteforce, render_workers_independent, regions_partition for every classifier, every sound interval oracle, every view and worker count. Tie: the model's render, fed the real per-voxel signs and the real interval answers, must equal the real depth image pixel for pixel; splits and regions compared exactly. Oracle: Heightmap::render == brute-force column scan for workers 1..16.",
          "Real threads are not modelled (independence from recurse_local + observation); float voxel positions are observed.",
          "Lean 4 proof (induction on the voxel recursion) + control-flow replay with real evaluator answers"),
- "C10": ("Theorems: collect_partition (no precondition), collect_closed (in=out=1 => every polyline closed, every segment used once), weld_fuel_irrelevant, marching2_partition / contour_winding_rule / patch_vertex_in_out by decide over MarchingTable<2> dumped from the running library. Tie: the real Contours::collect on hand-built and captured per-thread b-reps vs the model (exact polylines); the real DCContourer::load on all 128 mask pairs. Oracle: closedness, degrees, polygon winding, vertex distance on rendered slices.",
-         "Winding / distance clauses are oracle-only; merged cells are not in the load model.",
-         "Lean 4 proof (welding induction; table lemmas by decide over regenerated tables) + exact replay of collect"),
- "C11": ("Theorems: render_repaired (with cancel checks after every phase the result is none or complete, for all phase sizes and flag observations), render_all_or_nothing_counterexample (the current flow returns a partial mesh — negation proved), last_arriver, observed_countdown, no_lost_task, worker_progress_partial, collect_reports_zero. Tie: cancel raised at the k-th visit of every hook site; controlled-mode traces replayed event by event through the pool model; render-level outcome predicted by the control-flow model. Oracle: returns within a watchdog; a non-null result is a complete closed mesh.",
-         "Termination without cancel is proved only as worker_progress_partial (replayed traces + watchdog for the rest); wall-clock bound not modelled.",
-         "Lean 4 proof (invariants of the pool transition system + control-flow model) + trace refinement under cancel injection"),
+ "C10": ('Proved: collect_partition (no precondition), collect_closed (in=out=1 => every polyline closed, every segment used once), and the PREMISE for every uniform grid: grid_degree_one / grid_contours_closed (any w x h grid of DC cells, any corner signs with a uniform outer ring), dual_walk_calls (the recursive dual walk visits each edge-adjacent pair exactly once); table lemmas by decide over MarchingTable<2> dumped from the running library. Tie: the real Contours::collect on hand-built and captured per-thread b-reps vs the model (exact polylines); the real DCContourer::load on all 128 mask pairs. Oracle: closedness, degrees, polygon winding, vertex distance on rendered slices.',
+         'Winding / distance clauses are oracle-only; merged cells and mixed levels are outside the grid theorems (oracle only).',
+         'Lean 4 proof (welding induction; degree-one premise for uniform grids; table lemmas by decide over regenerated tables) + exact replay of collect'),
+ "C11": ('Model: control flow of Mesh::render (as repaired by f00be3c: cancel checked after every phase) and the worker-pool transition system. Proved: the result is none or complete for every cancellation point (render_all_or_nothing) with the pre-fix counter-trace kept; last_arriver; no_lost_task; cell_ownership; a strictly decreasing measure with explicit bounds on non-spinning steps; deadlock freedom; worker_progress in full (without cancel every execution that exhausts its non-spinning steps ends with the root collected and done set; with cancel every worker leaves at its next loop-head check). Tie: cancel raised at the k-th visit of every hook site; controlled-mode traces replayed event by event through the pool model; render outcome predicted by the control-flow model. Oracle: returns within a watchdog; a non-null result is a complete closed mesh.',
+         'Fairness of the OS scheduler (busy-waiting workers) and wall-clock bounds are not modelled; worker ids are bounded by hypothesis workersBelow.',
+         'Lean 4 proof (invariants, measure and deadlock freedom of the pool transition system + control-flow model) + trace refinement under cancel injection'),
  "C12": ("Theorems: bracket discipline (balanced_history, history_preserves) applied to a call table regenerated on every run from Boost.Interval's and libfive's headers (all_rounding_calls_guarded is a kernel `decide`); exhaustive observation of rounding mode / MXCSR / x87 CW over opcode x evaluator kind x operand class x initial mode.",
          "The theorem is thin by nature; the regex scanners are trusted; libm/Eigen effects on control registers are observed only.",
          "Lean 4 proof over a table regenerated from source + exhaustive observation"),
- "C15": ("Theorems: values_frame, derivs_frame, interval_frame, gradient_frame, updateVars_effect, history_independent (induction over any finite history: answers depend only on variable values and constants), core_preserved, feature_walk_frame. Tie: count_simd / clear_vars / seeds predicted after every query on real histories. Oracle: one long-lived Evaluator vs a fresh one per query (same optimised tree), ~13k queries per run.",
-         "Feature queries are covered by feature_walk_frame under two hypotheses the real code does not establish (recorded findings).",
-         "Lean 4 proof (frame argument over evaluator state) + long-lived vs fresh differential"),
+ "C15": ('Proved: values_frame, derivs_frame, interval_frame, gradient_frame, features frame (no hypothesis on scratch since fixes aa9f57c / 3ea66fb), updateVars_effect, history_independent (induction over any finite history: answers depend only on variable values and constants), core_preserved. Tie: count_simd / clear_vars / seeds predicted after every query on real histories. Oracle: one long-lived Evaluator vs a fresh one per query (same optimised tree), ~13k queries per run.',
+         'Float kernels are not modelled (bit-identity is observed).',
+         'Lean 4 proof (frame argument over evaluator state) + long-lived vs fresh differential'),
  "C17": ("Theorems for every scalar, evaluator, initial state, mask and budget: residual_is_value, mask_untouched, outer_bounded, absent_untouched_partial, inner_terminates_partial, and the negations with concrete witnesses (findRoot_not_total, zero_step_hang, absent_touched_nonfinite, gas_zero_iterates); fixed_inner_terminates for the proposed guard. Tie: the model at Float32 fed the real evaluator's values/gradients reproduces every trial point bit for bit and every accepted state over the first 24 iterations. Oracle: recomputed residual, masked/absent variables, watchdog.",
          "Iteration counts are inferred from a gas sweep (no hook); Laws are landmark-tested for Float32, not proved.",
          "Lean 4 proof (state-machine model with explicit non-finite values) + bit-exact trajectory replay"),
@@ -63,15 +63,27 @@ CLAIMS = {
  "C13": ("Theorems about the refcount machine (every operation = micro-steps of the C++: refcount++, explicit-stack destructor, node construction; tree-building calls with ANY admissible outcome): reachable_inv, rc_invariant (rc n = #handles + #parent edges), no_dangling, no_undefined_behaviour, api_preserves_args, leak_free, destructor_iterative / destructor_fuel_suffices (native stack O(1) in tree depth). Tie: after every operation of seeded random sequences over the Tree value type and the C API the live-node counter, every handle's target and refcount and every live node's refcount equal the model's prediction (hook events give allocations / deletions). Oracle: live nodes return to the baseline once every handle is deleted; 3e5..1e6-node chains / fans destroyed with a 256 kB native stack; ASan/LSan run of the same sequences.",
          "Allocator and C++ temporary lifetime rules not modelled; ASan/LSan is a validator (exploration); TreeOracle nodes are exercised in C16.",
          "Lean 4 proof (invariants of the refcount transition system) + op-by-op state correspondence with the live-node hook"),
- "C14": ("Theorems about the atomic-step acceptor (one seq-cst counter per node + the delete protocol of ~Tree): unique_deleter (exactly one thread observes 1->0), deleter_is_observer, freed_untouched / no_use_after_free_conc (no event on a node after its delete, for every accepted interleaving), final_count, interleaving_confluent_partial, statics_all_classified (decide over the list of mutable statics regenerated from the sources). Tie (R): controlled-mode traces (cooperative scheduler at the refcount hooks, seeded) replayed event by event through cstep; free-mode and TSan runs (shared-DAG and cold-start families) as validators. Oracle: per-thread results equal a sequential run; live-node count restored.",
-         "Data-race freedom of the C++ rests on TSan exploration + the statics footprint audit, not on a proof; the dynamic cascade of child decrements is proved sequentially (C13) only; interleaving_confluent is partial.",
-         "Lean 4 proof (atomic-step refcount acceptor, every interleaving) + trace refinement under a seeded scheduler + statics audit regenerated from source"),
+ "C14": ('Two models: the atomic-step acceptor (one seq-cst counter per node + the delete protocol of ~Tree) and a per-thread PROGRAM model (copy/destroy ops, the explicit work stack, delete) proved to refine it (prog_refines_acceptor). Proved: interleaving_confluent in full (any two complete schedules of any programs over any DAG end in the same state = the sequential one), no_use_after_free_prog, fault_free_prog, quiescent_heap, unique_deleter, deleter_is_observer, freed_untouched, statics_all_classified (decide over the list of mutable statics regenerated from the sources). Tie (R): controlled-mode traces (cooperative scheduler at the refcount hooks, seeded) replayed event by event through the acceptor; free-mode and TSan runs (shared-DAG and cold-start families) as validators. Oracle: per-thread results equal a sequential run; live-node count restored.',
+         'Data-race freedom of the C++ rests on TSan exploration + the statics footprint audit, not on a proof; move/assign/release are compositions of copy/destroy on the counters.',
+         'Lean 4 proof (refcount program model: confluence over all interleavings, refinement to the trace acceptor) + trace refinement under a seeded scheduler + statics audit regenerated from source'),
  "C16": ("Theorems over an abstract scalar: transformed_value / oracle_tree_value (TransformedOracle = wrapped expression composed with the coordinate maps), remap_chain, transformed_interval_sound, transformed_interval_sound_flagged (maybe-NaN coordinate ranges, the repaired evalInterval) with transformed_interval_old_unsound as witness against the previous code, transformed_interval_eq_plain, transformed_gradient / oracle_tree_gradient (chain rule as a ring identity), transformed_features, context_balanced / balanced_spec / context_forwarding (bind-push-unbind protocol), push_preserves_oracle_value, transformed_push_value. Tie: wrapped-oracle trees vs the plain remapped expression on generated inputs (values, every batch slot, intervals, gradients, Jacobian products, context traces replayed through the protocol model, nested pushes, meshes). Oracle: long-double reference with running error bound.",
          "User oracles' own answers are hypotheses; at exact min/max ties only non-emptiness of the feature list is judged; comparisons at points where a coordinate map or sub-expression is undefined are skipped and counted; per-case time budget (skipped cases counted).",
          "Lean 4 proof (composition / chain-rule identities, flagged enclosure, context protocol) + oracle-vs-plain differential"),
 }
 PENDING = {
 }
+
+
+def theorem_names(p):
+    """names listed in Audit/<p>*.lean (what every run re-checks with #print axioms)"""
+    import re
+    d = os.path.join(V, "lean", "Audit")
+    names = []
+    for f in sorted(os.listdir(d)):
+        if f.endswith(".lean") and f.startswith(p) and (f == p + ".lean" or not f[len(p)].isdigit()):
+            for m in re.finditer(r"^#print axioms\s+(\S+)", open(os.path.join(d, f)).read(), re.M):
+                names.append(m.group(1).split(".")[-1])
+    return names
 
 
 def main():
@@ -91,7 +103,10 @@ def main():
                 "evidence_file": "/verif/evidence/%s.json" % p,
                 "replay_cmd_template": "cat {path}",
                 "engine": "lean+harness",
-                "level_claimed": {"category": "proof", "text": text, "design_ref": "DESIGN.md §5 %s, §11" % p},
+                "level_claimed": {"category": "proof",
+                                  "text": text + " Kernel-checked theorems audited on every run (%d): %s." % (
+                                      len(theorem_names(p)), ", ".join(theorem_names(p))),
+                                  "design_ref": "DESIGN.md §5 %s, §11, §12" % p},
                 "level_note": TB + note,
                 "technique": tech,
             })
